@@ -48,4 +48,113 @@ theorem call_enabled (g : String → Int) (f : Nat) (l st : List Int) :
       step_const, b2i_true_ne, h, if_false, wrap32_small, List.take, List.reverse_nil, List.nil_append, List.replicate]
     simp [callRet]
 
+attribute [local irreducible] Wat.step Wat.run
+
+macro "wat_exec" : tactic => `(tactic|
+  simp (disch := omega) only [run_cons, run_nil, seqK_next, seqK_ret, seqK_none, step_localGet, step_localSet, step_localTee,
+    step_globalGet, step_const, step_add, step_sub, step_mul, step_divS, step_remS, step_leS, step_ltS, step_gtS, step_geS,
+    step_eq, step_ne, step_eqz, step_drop, step_unreachable, step_ret, step_if, step_block, call_enabled, call_alignment8,
+    b2i_true_ne, wrap32_small, divS_pos, remS_pos, Option.map_some, Option.map_none, gl_cap, gl_base,
+    List.take, List.reverse_cons, List.reverse_nil, List.nil_append, List.replicate, List.append_nil, List.getD_cons_zero,
+    List.cons_append, if_true, if_false, ite_true, ite_false, if_pos, if_neg, ne_eq, not_true_eq_false, not_false_eq_true,
+    Int.natCast_eq_zero])
+
+/-- the regenerated `$heap_free_list.ptr_and_fixed_size` returns the head of the list the model's
+`ptrAndFixedSize` names (`heapBase + 8 * index`, index 4 = l128) and the model's block size -/
+theorem gen_ptr_and_fixed_size (c : Config) (f : Nat) (n : Nat) (hn : n ≤ 1073741824)
+    (hb : c.heapBase + 32 < 2147483648) (hcap : c.cap < 2147483648) :
+    callFuel funcs (glOf c) (f + 40) "heap_free_list.ptr_and_fixed_size" [(n : Int)] =
+      some [((c.heapBase + 8 * (ptrAndFixedSize c n).1 : Nat) : Int), (((ptrAndFixedSize c n).2 : Nat) : Int)] := by
+  simp only [callFuel, find_ptr, Option.bind_some, List.reverse_cons, List.reverse_nil, List.nil_append]
+  rw [step_call funcs _ (f + 39) "heap_free_list.ptr_and_fixed_size" f_heap_free_list_ptr_and_fixed_size _ find_ptr
+    (by simp [f_heap_free_list_ptr_and_fixed_size])]
+  simp only [f_heap_free_list_ptr_and_fixed_size]
+  by_cases hc : c.cap = 0
+  · wat_exec
+    simp [callRet, ptrAndFixedSize, hc, align8]
+  · by_cases h80 : n > 80
+    · by_cases h128 : n ≤ 128
+      · wat_exec
+        simp [callRet, ptrAndFixedSize, hc, h80, h128]
+      · wat_exec
+        simp [callRet, ptrAndFixedSize, hc, h80, h128, align8]
+    · by_cases h48 : n > 48
+      · wat_exec
+        simp [callRet, ptrAndFixedSize, hc, h80, h48]
+      · by_cases h32 : n > 32
+        · wat_exec
+          simp [callRet, ptrAndFixedSize, hc, h80, h48, h32]
+        · by_cases h24 : n > 24
+          · wat_exec
+            simp [callRet, ptrAndFixedSize, hc, h80, h48, h32, h24]
+          · wat_exec
+            simp [callRet, ptrAndFixedSize, hc, h80, h48, h32, h24]
+
+/-- the regenerated `$heap_alignment8` computes the model's `align8` -/
+theorem gen_alignment8 (g : String → Int) (f : Nat) (n : Nat) (h : n ≤ 1073741824) :
+    callFuel funcs g (f + 12) "heap_alignment8" [(n : Int)] = some [((align8 n : Nat) : Int)] := by
+  have := call_alignment8 g f [] [] (n : Int) (by omega) (by omega)
+  simp only [callFuel, find_alignment8, List.reverse_cons, List.reverse_nil, List.nil_append, this, Option.bind_some, Option.map_some]
+  simp [f_heap_alignment8, align8]
+
+/-- `$heap_is_fixed_size`: 1 exactly when the fixed lists are enabled and the size is at most 80 -/
+theorem gen_is_fixed_size (c : Config) (f : Nat) (n : Nat) (hn : n ≤ 1073741824) (hcap : c.cap < 2147483648) :
+    callFuel funcs (glOf c) (f + 20) "heap_is_fixed_size" [(n : Int)] =
+      some [if c.cap ≠ 0 ∧ n ≤ 80 then 1 else 0] := by
+  simp only [callFuel, find_is_fixed_size, Option.bind_some, List.reverse_cons, List.reverse_nil, List.nil_append]
+  rw [step_call funcs _ (f + 19) "heap_is_fixed_size" f_heap_is_fixed_size _ find_is_fixed_size (by simp [f_heap_is_fixed_size])]
+  simp only [f_heap_is_fixed_size]
+  by_cases hc : c.cap = 0
+  · wat_exec
+    simp [callRet, hc]
+  · by_cases h80 : n ≤ 80
+    · wat_exec
+      simp [callRet, hc, h80]
+    · wat_exec
+      simp [callRet, hc, h80]
+
+/-- `$heap_block.data`: the payload starts 8 bytes after the block header -/
+theorem gen_block_data (g : String → Int) (f : Nat) (p : Nat) (hp : p + 8 < 2147483648) :
+    callFuel funcs g (f + 10) "heap_block.data" [(p : Int)] = some [((p + 8 : Nat) : Int)] := by
+  simp only [callFuel, find_data, Option.bind_some, List.reverse_cons, List.reverse_nil, List.nil_append]
+  rw [step_call funcs _ (f + 9) "heap_block.data" f_heap_block_data _ find_data (by simp [f_heap_block_data])]
+  simp only [f_heap_block_data]
+  wat_exec
+  simp [callRet]
+
+/-- `$heap_assert_align8` traps exactly on values that are not multiples of 8 -/
+theorem gen_assert_align8 (g : String → Int) (f : Nat) (p : Nat) (hp : p < 2147483648) :
+    callFuel funcs g (f + 10) "heap_assert_align8" [(p : Int)] = if p % 8 = 0 then some [] else none := by
+  simp only [callFuel, find_assert8, Option.bind_some, List.reverse_cons, List.reverse_nil, List.nil_append]
+  rw [step_call funcs _ (f + 9) "heap_assert_align8" f_heap_assert_align8 _ find_assert8 (by simp [f_heap_assert_align8])]
+  simp only [f_heap_assert_align8]
+  by_cases h : p % 8 = 0
+  · have h' : (p : Int) % 8 = 0 := by omega
+    wat_exec
+    simp [callRet, h, h']
+  · have h' : ¬ (p : Int) % 8 = 0 := by omega
+    wat_exec
+    simp [callRet, h, h']
+
+/-- `$heap_assert_valid_ptr` (first check of `wa_free`) traps on 0 and on pointers that are not multiples of 4 -/
+theorem gen_assert_valid_ptr (g : String → Int) (f : Nat) (p : Nat) (hp : p < 2147483648) :
+    callFuel funcs g (f + 14) "heap_assert_valid_ptr" [(p : Int)] = if 0 < p ∧ p % 4 = 0 then some [] else none := by
+  simp only [callFuel, find_valid, Option.bind_some, List.reverse_cons, List.reverse_nil, List.nil_append]
+  rw [step_call funcs _ (f + 13) "heap_assert_valid_ptr" f_heap_assert_valid_ptr _ find_valid (by simp [f_heap_assert_valid_ptr])]
+  simp only [f_heap_assert_valid_ptr]
+  by_cases h0 : 0 < p
+  · by_cases h : p % 4 = 0
+    · have h' : (p : Int) % 4 = 0 := by omega
+      wat_exec
+      simp [callRet, h, h', h0]
+    · have h' : ¬ (p : Int) % 4 = 0 := by omega
+      wat_exec
+      simp [callRet, h, h', h0]
+  · have : p = 0 := by omega
+    subst this
+    wat_exec
+    simp [callRet]
+
+example : (∃ c : Config, c.heapBase + 32 < 2147483648 ∧ c.cap < 2147483648 ∧ c.cap ≠ 0) := ⟨⟨1, 2, 100, 1000, 3⟩, by decide⟩
+
 end WaVerif.C10.GenProps
